@@ -1,5 +1,6 @@
 import MakoModel.Pipeline.LemmasFilter
 import MakoModel.Pipeline.LemmasScan
+import MakoModel.Pipeline.LemmasWellLexed
 /-!
 # C02 – expression substitution applies the filter pipeline in the documented order;
 the expression scanner is never cut short
@@ -120,6 +121,42 @@ theorem buffer_filters_after_def_filters (defArgs bufferFilters : List Str) (tgt
 example : defFinishExpr [['f']] [['g']] true false ['b'] ⟨[['s', 't', 'r']], some [['h']]⟩ = "g(f(b))".toList := by
   decide
 
+/-- without configuration `buffer_filters` is empty (regenerated default of `Template.__init__`): a buffered def
+returns just `F(body)` -/
+theorem no_config_no_buffer_filters (defArgs : List Str) (tgt : Str) (cfg : Cfg) :
+    defFinishExpr defArgs templateBufferFilters true false tgt cfg = nest ((dropN defArgs).map resolve) tgt := by
+  have h : templateBufferFilters = [] := by decide
+  rw [buffer_filters_after_def_filters, h]
+  simp [dropN, nest]
+
+/-- a `cached="True"` def: the function whose result is cached ends with the def's own filters only, whether
+buffered or not; `buffer_filters` are applied by the caching wrapper, outside the cache, and only when the def
+is buffered – so `B(cached F(body))`, again without D and P. -/
+theorem cached_def_buffer_filters_outside_cache (defArgs bufferFilters : List Str) (buffered : Bool)
+    (tgt s : Str) (cfg : Cfg) :
+    defFinishExpr defArgs bufferFilters buffered true tgt cfg = nest ((dropN defArgs).map resolve) tgt ∧
+    cacheDecoratorExpr bufferFilters true s cfg = nest ((dropN bufferFilters).map resolve) s ∧
+    cacheDecoratorExpr bufferFilters false s cfg = s := by
+  refine ⟨?_, ?_, ?_⟩
+  · unfold defFinishExpr
+    cases defArgs with
+    | nil => simp [dropN, nest]
+    | cons f fs => simp [createFilterCallable_nonexpr]
+  · simp [cacheDecoratorExpr, createFilterCallable_nonexpr]
+  · simp [cacheDecoratorExpr]
+
+example : defFinishExpr [['h']] [['g']] true true ['b'] ⟨[], none⟩ = "filters.html_escape(b)".toList ∧
+    cacheDecoratorExpr [['g']] true ['c'] ⟨[], none⟩ = "g(c)".toList := by decide
+
+/-- `<%call expr="e">` writes the value of `e` exactly like `${e}` with no local filters: through D and P
+(the property text is silent about `<%call>`; this records what the code does). -/
+theorem call_tag_is_plain_expression (e : Str) (cfg : Cfg) :
+    callTagExpr e cfg = nest ((pipeline cfg []).map resolve) e ∧
+    callTagExpr e cfg = createFilterCallable [] e true cfg :=
+  ⟨pipeline_order [] e cfg, rfl⟩
+
+example : callTagExpr "r()".toList ⟨[['s', 't', 'r']], some [['g']]⟩ = "g(str(r()))".toList := by decide
+
 /-! ## the built-in names -/
 
 /-- the documented flags and the functions they denote -/
@@ -227,12 +264,20 @@ theorem eval_pipeline {V : Type} (env : Str → V → V) (v : V) (fs : List Str)
 
 /-! ## the scanner -/
 
-/-- For ALL texts `s` and positions `p ≤ q`: if `s[p,q)` is well-lexed and `s[q]` is the first `|` or `}`
-that the lexical specification places outside string literals and comments at bracket depth 0, then the
-regex loop of `parse_until_text(True, "\|", "}")` started at `p` returns exactly `(s[p,q), s[q])` and
-leaves `match_position = q + 1`: the expression is never cut short and never extended. -/
+/-- `Spec.firstTopLevel bar t = some k` already says that `t[0,k)` is well-lexed (every literal, comment and
+bracket opened in it is closed in it), so `scan_expr_spec` / `scan_filters_spec` need no separate well-lexedness
+hypothesis: the quantifier "for every well-lexed region followed by its first top-level terminator" is exactly
+"for every `p, q` with `firstTopLevel (s.drop p) = some (q - p)`". -/
+theorem first_top_level_region_well_lexed (bar : Bool) (s : Str) (p q : Nat)
+    (hq : Spec.firstTopLevel bar (s.drop p) = some (q - p)) : Spec.wellLexed (slice s p q) = true :=
+  firstTopLevel_wellLexed bar (s.drop p) (q - p) hq
+
+/-- For ALL texts `s` and positions `p ≤ q`: if `s[q]` is the first `|` or `}` that the lexical specification
+places outside string literals and comments at bracket depth 0 when reading from `p` (which implies that `s[p,q)`
+is well-lexed, `first_top_level_region_well_lexed`), then the regex loop of `parse_until_text(True, "\|", "}")`
+started at `p` returns exactly `(s[p,q), s[q])` and leaves `match_position = q + 1`: the expression is never cut
+short and never extended. -/
 theorem scan_expr_spec (s : Str) (p q : Nat) (hpq : p ≤ q)
-    (_hwl : Spec.wellLexed (slice s p q) = true)
     (hq : Spec.firstTopLevel true (s.drop p) = some (q - p)) :
     ∃ c, s[q]? = some c ∧ (c = '|' ∨ c = '}') ∧
       parseUntilText true exprTerms s p = .ok (slice s p q) [c] (q + 1) := by
@@ -252,7 +297,6 @@ example :
 
 /-- the same for the filter part after `|` (terminator `}` only; `|` is an ordinary character there) -/
 theorem scan_filters_spec (s : Str) (p q : Nat) (hpq : p ≤ q)
-    (_hwl : Spec.wellLexed (slice s p q) = true)
     (hq : Spec.firstTopLevel false (s.drop p) = some (q - p)) :
     s[q]? = some '}' ∧ parseUntilText true escTerms s p = .ok (slice s p q) ['}'] (q + 1) := by
   obtain ⟨c, h1, h2, h3⟩ := scan_spec_gen false s p q hpq hq
@@ -303,7 +347,8 @@ example :
   decide
 
 /-- outside the property's quantifier (a filter entry that is neither a name nor a call): the code generator keeps
-only what `(.+?)(\(.*\))` matches, text after the last `)` is dropped – `${x | f(1).g}` emits `f(1)(x)` -/
-example : resolve "f(1).g".toList = "f(1)".toList := by decide
+only what `(.+?)(\(.*\))` matches, text after the last `)` is dropped – `${x | f(1).g}` emits `f(1)(x)`; with
+the regex anchored by `$` (fixes/F-C02-filter-tail.diff) the entry is emitted unchanged. -/
+example : resolve "f(1).g".toList = (if callRegexAnchored then "f(1).g".toList else "f(1)".toList) := by decide
 
 end MakoModel.C02
